@@ -34,7 +34,9 @@ def main(p):
     from .driver import load_registry
     from . import runtime
     reg=load_registry(repo); c=reg.contracts[p['contract']]
-    args=p['args']; print("inputs     : "+', '.join(f"{k}={v!r}" for k,v in args.items()))
+    args=p['args']
+    if getattr(c,'json_args',None): args=c.json_args[1](args)
+    print("inputs     : "+', '.join(f"{k}={v!r}" for k,v in args.items()))
     out=runtime.check_call(c,args,repo)
     print(f"case       : {out.case}"); print(f"outcome    : {getattr(out,'result',None) or getattr(out,'exception',None)}")
     if out.skipped or out.ok: print("contract holds on this input: NOT reproduced"); return 0
